@@ -138,8 +138,9 @@ class _VersionMatch(GenericEquality, restriction.base):
 
     # TODO: cached_hash?
     def __hash__(self):
-        # equality looks at the normalized operator set, so must the hash
-        return hash((self.droprev, self.ver, self.rev, self._convert_ops(self)))
+        # equality looks at the normalized operator set, so must the hash;
+        # no revision compares equal to -r0, so both hash as 0
+        return hash((self.droprev, self.ver, self.rev or 0, self._convert_ops(self)))
 
 
 class VersionMatch(packages.PackageRestriction):
